@@ -212,6 +212,7 @@ def _context(script, impl):
     """write history per key, maintenance events with their epoch, table dumps by line"""
     hist, events, dumps = {}, [], {}
     epoch = 0
+    clock = 0                 # the tombstone tracker's clock in seconds (`advance`)
     for i, s in enumerate(script):
         if s.startswith('#'):
             continue
@@ -219,19 +220,21 @@ def _context(script, impl):
         op = ws[0]
         ok = out.split()[:1] == ['ok']
         if op == 'open':
-            hist, events, dumps, epoch = {}, [], {}, 0
+            hist, events, dumps, epoch, clock = {}, [], {}, 0, 0
+        elif op == 'advance' and ok:
+            clock += int(ws[1])
         elif op == 'put' and ok:
-            hist.setdefault(_kb(ws[1]), []).append(dict(line=i, val=_kb(ws[2]), via='put', epoch=epoch))
+            hist.setdefault(_kb(ws[1]), []).append(dict(line=i, val=_kb(ws[2]), via='put', epoch=epoch, time=clock))
         elif op == 'del' and ok:
-            hist.setdefault(_kb(ws[1]), []).append(dict(line=i, val=None, via='del', epoch=epoch))
+            hist.setdefault(_kb(ws[1]), []).append(dict(line=i, val=None, via='del', epoch=epoch, time=clock))
         elif op in ('batch', 'tx') and ok:
             for d, k, v in _triples3(ws[2:]):
-                hist.setdefault(_kb(k), []).append(dict(line=i, val=None if d == 'd' else _kb(v), via=op, epoch=epoch))
+                hist.setdefault(_kb(k), []).append(dict(line=i, val=None if d == 'd' else _kb(v), via=op, epoch=epoch, time=clock))
         elif op == 'reopen' and ok:
             epoch += 1
-            events.append(dict(line=i, kind='reopen', ws=ws, out=out, epoch=epoch))
+            events.append(dict(line=i, kind='reopen', ws=ws, out=out, epoch=epoch, time=clock))
         elif op in ('flush', 'retire', 'compact', 'crange') and ok:
-            events.append(dict(line=i, kind=op, ws=ws, out=out, epoch=epoch))
+            events.append(dict(line=i, kind=op, ws=ws, out=out, epoch=epoch, time=clock))
         elif op == 'sstdump':
             t = parse_sstdump(out)
             if t is not None:
@@ -249,7 +252,20 @@ def _untracked_delete_between(hist, events, k, after_line, before_line, comp_lin
             for c in comps:
                 if d['line'] < c['line'] and (d['via'] == 'tx' or c['epoch'] > d['epoch']):
                     return True
+                if d['line'] < c['line'] and _expired_at(hist, k, c):
+                    return True
     return False
+
+
+RETENTION = 86400             # TombstoneTracker retention of the engine (24 h), seconds
+
+
+def _expired_at(hist, k, c):
+    """the same defect (D26: a marker is kept only if this process recorded the delete in the last 24 h), clock side: every
+    delete of k that the tracker of the running process recorded (facade Delete / ApplyBatch, same epoch as the compaction)
+    before compaction c is `RETENTION` or more old at c — the LAST recorded delete counts, each one refreshes the record"""
+    rec = [d for d in hist.get(k, []) if d['val'] is None and d['via'] in ('del', 'batch') and d['epoch'] == c['epoch'] and d['line'] < c['line']]
+    return bool(rec) and c.get('time', 0) - rec[-1].get('time', 0) >= RETENTION
 
 
 def classify(script, impl, problems):
